@@ -17,16 +17,17 @@ DOC_RANGES = {
 
 
 def find_bounded_trait(ctx):
-    """the private trait whose default method tests RangeInclusive::contains
-    and then calls a sibling constructor"""
+    """the private trait with a default method that returns Result<Self, _>, calls sibling methods of the
+    trait (range / unchecked constructor) and is implemented by the local newtypes"""
     c = []
     for p, b in ctx.lib.bodies.items():
-        if b.impl_of and 'trait_default' in b.impl_of:
+        if b.impl_of and 'trait_default' in b.impl_of and b.locals[0]['s'].startswith('std::result::Result<Self,'):
+            tr = b.impl_of['trait_default']
             names = [callee_name(t) or '' for _, t in b.calls()]
-            if any(n.endswith('RangeInclusive::<Idx>::contains') for n in names):
-                tr = b.impl_of['trait_default']
-                if any(n.startswith(tr + '::') for n in names):
-                    c.append((tr, p))
+            sib = [n for n in names if n.startswith(tr + '::')]
+            nimpl = sum(1 for im in ctx.lib.impls if im['trait'] == tr and im['self_ty'] in ctx.lib.adts)
+            if len(set(sib)) >= 2 and nimpl >= 2 and b.arg_count == 1:
+                c.append((tr, p))
     if len(c) != 1:
         raise AnchorLost('bounded-trait', f'{len(c)} candidates')
     return c[0]
@@ -193,16 +194,27 @@ def run(ctx, rep):
             conds, okv = oks[0]
             want_new = ('app', new_decl, (('param', 'value'),))
             it = None
-            if len(conds) == 1 and conds[0][1] is True:
-                it = interval_test(conds[0][0], ('param', 'value'))
-            if okv[4][0] != want_new:
+            neg = [c for c, pol in conds if not pol]
+            if neg:
+                detail = ('the accepting path is reached through the *false* outcome of a comparison '
+                          f'({show(neg[0])[:80]}): NaN compares false and is accepted')
+            else:
+                g = None
+                for c, pol in reversed(conds):
+                    g = c if g is None else ('ite', c, g, E.FALSE)
+                it = interval_test(g, ('param', 'value'))
+            if neg:
+                pass
+            elif okv[4][0] != want_new:
                 detail = f'Ok payload is {show(okv[4][0])}, expected {last_seg(new_decl)}(value)'
             elif it is None:
                 detail = f'guard is not a closed-interval test on the same value: {show(conds)}'
             else:
                 lo, hi, clo, chi = it
                 rng = ('app', range_decl, ())
-                if lo == ('range_start', rng) and hi == ('range_end', rng) and clo and chi:
+                los = (('range_start', rng), ('app', 'range_start', (rng,)))
+                his = (('range_end', rng), ('app', 'range_end', (rng,)))
+                if lo in los and hi in his and clo and chi:
                     ok = True
                     detail = 'Ok(new(value)) iff range().contains(&value); Err otherwise'
                 else:
@@ -354,3 +366,21 @@ def run(ctx, rep):
 
     # ---- R18.5 no panic in the routes -------------------------------------
     rep.ob('R18.5', 'routes', n_pan == 0, f'{n_pan} reachable panic site(s) in the construction routes')
+    from . import c07
+    roots = [try_from_default] + parse_defaults + list(tf_of.values())
+    for ty in types:
+        roots += impl_fn(ty, 'str::FromStr', 'from_str')
+        roots += [p for p, b in lib.bodies.items() if (b.impl_of or {}).get('self_ty') == ty and
+                  (b.impl_of.get('trait') or '').endswith('::Deserialize') and last_seg(p) == 'deserialize']
+    reach = set()
+    for r in roots:
+        reach |= lib.reachable_from(r)
+    n_sites = 0
+    for (p, bi, cls, n) in c07.static_sites(ctx, reach):
+        n_sites += 1
+        if cls == 'unwrap':
+            continue        # path-sensitively discharged above (no panic event in any outcome)
+        rep.ob('R18.5', f'{p}:{cls}:{last_seg(n)}', False, f'panic-capable {cls} ({n}) inside a construction route',
+               where=lib.bodies[p].blocks[bi]['term'].get('span'))
+    rep.extra['route_bodies'] = len(reach)
+    rep.extra['route_panic_sites'] = n_sites
